@@ -118,6 +118,9 @@ def make_symbolic(self, decl, name):
         return Opaque(decl[1], kind="effect", spec=decl[2])
     if kind == "logger":
         return Opaque("logger", kind="logger")
+    if kind == "callable":
+        from .values import Opaque as _Op
+        return _Op(decl[1], kind="callable", spec={"returns": decl[2], "raises": decl[3]})
     if kind == "ref":
         s = self.fresh(name, ("ref", decl[1]))
         self.path.assume(s.t > 0)
@@ -242,6 +245,24 @@ def install_spec_builtins(ip):
         bs = byte_decomp(ip, ip.to_z3(n, "int"), w)
         return ip.wrap(z3.Concat(*[z3.Unit(b) for b in bs]) if w > 1 else z3.Unit(bs[0]), "bytes")
     B["be"] = Builtin("be", be)
+
+    def be_at(ip, a, k):
+        data, off, w = a
+        if isinstance(data, bytes) and isinstance(off, int):
+            return int.from_bytes(data[off:off + w], "big")
+        from .prims import int_of_bytes, _PATH
+        _PATH[0] = ip.path
+        return ip.wrap(int_of_bytes(ip.to_z3(data), ip.to_z3(off, "int"), w, False), "int")
+    B["be_at"] = Builtin("be_at", be_at)
+
+    def le_at(ip, a, k):
+        data, off, w = a
+        if isinstance(data, bytes) and isinstance(off, int):
+            return int.from_bytes(data[off:off + w], "little")
+        from .prims import int_of_bytes, _PATH
+        _PATH[0] = ip.path
+        return ip.wrap(int_of_bytes(ip.to_z3(data), ip.to_z3(off, "int"), w, True), "int")
+    B["le_at"] = Builtin("le_at", le_at)
 
     B["resolve_class"] = Builtin("resolve_class", lambda ip, a, k: ip.resolve_class(a[0]))
     B["resolve_module"] = Builtin("resolve_module", lambda ip, a, k: ip.src.load_path(a[0]))
